@@ -8,6 +8,8 @@
 //! (key bytes, hash160, which (key, signature) pairs verify).
 use crate::ast::{Rng, World, N_KEYS};
 use bitcoin::hashes::{hash160, sha256, Hash};
+use bitcoin::secp256k1::XOnlyPublicKey;
+use miniscript::{MiniscriptKey, Tap, ToPublicKey};
 use bitcoin::secp256k1::Message;
 use bitcoin::sighash::EcdsaSighashType;
 use miniscript::miniscript::satisfy::{Placeholder, Witness};
@@ -19,9 +21,28 @@ use std::str::FromStr;
 
 type Pk = bitcoin::PublicKey;
 
+/// the two key types of decoded scripts: full keys (Segwitv0, Legacy) and x-only keys (Tap)
+trait RKey:
+    MiniscriptKey + ToPublicKey
+    + Copy
+    + miniscript::FromStrKey
+{
+    fn idx(&self, w: &World) -> Option<usize>;
+    fn text(w: &World, i: usize) -> String;
+}
+impl RKey for Pk {
+    fn idx(&self, w: &World) -> Option<usize> { w.pks.iter().position(|p| p == self) }
+    fn text(w: &World, i: usize) -> String { format!("{}", w.pks[i]) }
+}
+impl RKey for XOnlyPublicKey {
+    fn idx(&self, w: &World) -> Option<usize> { w.pks.iter().position(|p| p.inner.x_only_public_key().0 == *self) }
+    fn text(w: &World, i: usize) -> String { format!("{}", w.pks[i].inner.x_only_public_key().0) }
+}
+
 struct Sat<'a> {
     w: &'a World,
     sigs: &'a [bitcoin::ecdsa::Signature],
+    xsigs: &'a [bitcoin::taproot::Signature],
     m_sig: u32,
     m_rpk: u32,
     m_rsig: u32,
@@ -35,6 +56,33 @@ impl<'a> Sat<'a> {
     fn by_hash(&self, h: &hash160::Hash) -> Option<usize> {
         self.w.pks.iter().position(|p| hash160::Hash::hash(&p.to_bytes()) == *h)
     }
+    fn by_xhash(&self, h: &hash160::Hash) -> Option<usize> {
+        self.w.pks.iter().position(|p| hash160::Hash::hash(&p.inner.x_only_public_key().0.serialize()) == *h)
+    }
+    fn any_hash(&self, h: &hash160::Hash) -> Option<usize> { self.by_hash(h).or_else(|| self.by_xhash(h)) }
+}
+
+impl<'a> Satisfier<XOnlyPublicKey> for Sat<'a> {
+    fn lookup_tap_leaf_script_sig(&self, pk: &XOnlyPublicKey, _: &bitcoin::taproot::TapLeafHash) -> Option<bitcoin::taproot::Signature> {
+        let i = pk.idx(self.w)?;
+        if self.m_sig & (1 << i) != 0 { Some(self.xsigs[i]) } else { None }
+    }
+    fn lookup_raw_pkh_x_only_pk(&self, h: &hash160::Hash) -> Option<XOnlyPublicKey> {
+        let i = self.by_xhash(h)?;
+        if self.m_rpk & (1 << i) != 0 { Some(self.w.pks[i].inner.x_only_public_key().0) } else { None }
+    }
+    fn lookup_raw_pkh_tap_leaf_script_sig(
+        &self,
+        hl: &(hash160::Hash, bitcoin::taproot::TapLeafHash),
+    ) -> Option<(XOnlyPublicKey, bitcoin::taproot::Signature)> {
+        let i = self.by_xhash(&hl.0)?;
+        if self.m_rsig & (1 << i) != 0 { Some((self.w.pks[i].inner.x_only_public_key().0, self.xsigs[i])) } else { None }
+    }
+    fn lookup_sha256(&self, h: &sha256::Hash) -> Option<[u8; 32]> {
+        if self.pre && self.w.sha256_img(0) == *h { Some(self.w.preimages[0]) } else { None }
+    }
+    fn check_older(&self, _: bitcoin::relative::LockTime) -> bool { self.older_ok }
+    fn check_after(&self, _: bitcoin::absolute::LockTime) -> bool { self.after_ok }
 }
 
 impl<'a> Satisfier<Pk> for Sat<'a> {
@@ -62,9 +110,16 @@ fn coq_bytes(b: &[u8]) -> String {
     format!("[{}]", v.join(";"))
 }
 
-fn coq_ms<Ctx: ScriptContext>(w: &World, t: &Terminal<Pk, Ctx>) -> String {
-    let k = |pk: &Pk| w.pks.iter().position(|p| p == pk).map(|i| i.to_string()).unwrap_or("999".into());
-    let ks = |v: &[Pk]| v.iter().map(|p| k(p)).collect::<Vec<_>>().join(";");
+/// hash images are printed through Display (hex, forward byte order for the four miniscript hash types)
+fn coq_hex<T: std::fmt::Display>(h: &T) -> String {
+    let t = format!("{}", h);
+    let b: Vec<u8> = (0..t.len() / 2).map(|i| u8::from_str_radix(&t[2 * i..2 * i + 2], 16).unwrap_or(0)).collect();
+    coq_bytes(&b)
+}
+
+fn coq_ms<K: RKey, Ctx: ScriptContext>(w: &World, t: &Terminal<K, Ctx>) -> String {
+    let k = |pk: &K| pk.idx(w).map(|i| i.to_string()).unwrap_or("999".into());
+    let ks = |v: &[K]| v.iter().map(|p| k(p)).collect::<Vec<_>>().join(";");
     match t {
         Terminal::True => "MTrue".into(),
         Terminal::False => "MFalse".into(),
@@ -73,10 +128,10 @@ fn coq_ms<Ctx: ScriptContext>(w: &World, t: &Terminal<Pk, Ctx>) -> String {
         Terminal::RawPkH(h) => format!("(MRawPkH {})", coq_bytes(h.as_byte_array())),
         Terminal::After(n) => format!("(MAfter {})", n.to_consensus_u32()),
         Terminal::Older(n) => format!("(MOlder {})", n.to_consensus_u32()),
-        Terminal::Sha256(h) => format!("(MSha256 {})", coq_bytes(h.as_byte_array())),
-        Terminal::Hash256(h) => format!("(MHash256 {})", coq_bytes(h.as_byte_array())),
-        Terminal::Ripemd160(h) => format!("(MRipemd160 {})", coq_bytes(h.as_byte_array())),
-        Terminal::Hash160(h) => format!("(MHash160 {})", coq_bytes(h.as_byte_array())),
+        Terminal::Sha256(h) => format!("(MSha256 {})", coq_hex(h)),
+        Terminal::Hash256(h) => format!("(MHash256 {})", coq_hex(h)),
+        Terminal::Ripemd160(h) => format!("(MRipemd160 {})", coq_hex(h)),
+        Terminal::Hash160(h) => format!("(MHash160 {})", coq_hex(h)),
         Terminal::Alt(x) => format!("(MAlt {})", coq_ms(w, &x.node)),
         Terminal::Swap(x) => format!("(MSwap {})", coq_ms(w, &x.node)),
         Terminal::Check(x) => format!("(MCheck {})", coq_ms(w, &x.node)),
@@ -104,15 +159,18 @@ fn coq_ms<Ctx: ScriptContext>(w: &World, t: &Terminal<Pk, Ctx>) -> String {
     }
 }
 
-fn coq_ph(s: &Sat, p: &Placeholder<Pk>) -> String {
-    let hk = |h: &hash160::Hash| s.by_hash(h).map(|i| i.to_string()).unwrap_or("999".into());
+fn coq_ph<K: RKey>(s: &Sat, p: &Placeholder<K>) -> String {
+    let hk = |h: &hash160::Hash| s.any_hash(h).map(|i| i.to_string()).unwrap_or("999".into());
     match p {
         // the size recorded in the placeholder must be Ctx::pk_len of the key: checked by `L` below
-        Placeholder::Pubkey(pk, n) => format!("(PhPubkey {}, {})", s.idx(pk).unwrap_or(999), n),
+        Placeholder::Pubkey(pk, n) => format!("(PhPubkey {}, {})", pk.idx(s.w).unwrap_or(999), n),
         Placeholder::PubkeyHash(h, n) => format!("(PhPubkey {}, {})", hk(h), n),
-        Placeholder::EcdsaSigPk(pk) => format!("(PhSig {}, 73)", s.idx(pk).unwrap_or(999)),
+        Placeholder::EcdsaSigPk(pk) => format!("(PhSig {}, 73)", pk.idx(s.w).unwrap_or(999)),
+        // the recorded size of a Schnorr signature is its byte length; its witness size is that + 1
+        Placeholder::SchnorrSigPk(pk, _, n) => format!("(PhSig {}, {})", pk.idx(s.w).unwrap_or(999), n + 1),
+        Placeholder::SchnorrSigPkHash(h, _, n) => format!("(PhSig {}, {})", hk(h), n + 1),
         Placeholder::EcdsaSigPkHash(h) => format!("(PhSig {}, 73)", hk(h)),
-        Placeholder::Sha256Preimage(h) => format!("(PhPre HSha256 {}, 33)", coq_bytes(h.as_byte_array())),
+        Placeholder::Sha256Preimage(h) => format!("(PhPre HSha256 {}, 33)", coq_hex(h)),
         Placeholder::HashDissatisfaction => "(PhHashDissat, 33)".into(),
         Placeholder::PushOne => "(PhPushOne, 2)".into(),
         Placeholder::PushZero => "(PhPushZero, 1)".into(),
@@ -158,34 +216,39 @@ const TEMPLATES: &[&str] = &[
 
 const TRIPLES: &[(usize, usize, usize)] = &[(0, 1, 2), (3, 4, 5), (5, 2, 0), (6, 1, 7), (2, 6, 3), (7, 0, 6)];
 
-fn one<Ctx: ScriptContext<Key = Pk>>(
+fn one<Src: ScriptContext<Key = Ctx::Key>, Ctx: ScriptContext>(
     w: &World,
     sigs: &[bitcoin::ecdsa::Signature],
+    xsigs: &[bitcoin::taproot::Signature],
     rng: &mut Rng,
     ctxname: &str,
     tpl: &str,
     tr: (usize, usize, usize),
     out: &mut String,
     stats: &mut (u64, u64, u64),
-) -> bool {
+) -> Result<(), String>
+where
+    Ctx::Key: RKey,
+    for<'a> Sat<'a>: Satisfier<Ctx::Key>,
+{
     let src = tpl
-        .replace("(A)", &format!("({})", w.pks[tr.0]))
-        .replace("(B)", &format!("({})", w.pks[tr.1]))
-        .replace("(C)", &format!("({})", w.pks[tr.2]))
+        .replace("(A)", &format!("({})", <Ctx::Key as RKey>::text(w, tr.0)))
+        .replace("(B)", &format!("({})", <Ctx::Key as RKey>::text(w, tr.1)))
+        .replace("(C)", &format!("({})", <Ctx::Key as RKey>::text(w, tr.2)))
         .replace("(H)", &format!("({})", w.sha256_img(0)));
-    // encoded from a Legacy source (allows uncompressed keys), decoded without context checks
-    let m0 = match Miniscript::<Pk, Legacy>::from_str_insane(&src) {
+    // encoded from a source of the same family (Legacy allows uncompressed keys but no or_i), decoded without context checks
+    let m0 = match Miniscript::<Ctx::Key, Src>::from_str_insane(&src) {
         Ok(m) => m,
-        Err(_) => return false,
+        Err(e) => return Err(format!("source rejected: {}", e)),
     };
     let script = m0.encode();
-    let d = match Miniscript::<Pk, Ctx>::decode_consensus(&script) {
+    let d = match Miniscript::<Ctx::Key, Ctx>::decode_consensus(&script) {
         Ok(d) => d,
-        Err(_) => return false,
+        Err(e) => return Err(format!("decode error: {}", e)),
     };
     let nraw = d.iter().filter(|x| matches!(x.node, Terminal::RawPkH(_))).count();
     if nraw == 0 {
-        return false;
+        return Err("no raw leaf".into());
     }
     let full: u32 = (1 << N_KEYS) - 1;
     let r1 = rng.next() as u32 & full;
@@ -193,14 +256,24 @@ fn one<Ctx: ScriptContext<Key = Pk>>(
     let r3 = rng.next() as u32 & full;
     let r4 = rng.next() as u32 & full;
     // (sigs, rpk, rsig)
+    // Tap, two restrictions on the independent-mask settings (see notes/C01-rawpkh.md):
+    // (1) the model represents SchnorrSigPkHash(h, leaf, size) by PhSig k, whose size it reads from the per-key
+    //     signature lookup, so the raw signature lookup only answers for keys whose per-key lookup answers;
+    // (2) completing PubkeyHash(h, 33) asks lookup_raw_pkh_x_only_pk ONLY (the ECDSA arm falls back to the key that
+    //     comes with lookup_raw_pkh_ecdsa_sig, the x-only arm has no such fall-back), so a template can be a Stack
+    //     while `satisfy` fails; the model's completion never fails on a key. Under Tap the raw signature lookup
+    //     therefore only answers for hashes lookup_raw_pkh_x_only_pk knows. `directed_tap_asymmetry` below
+    //     records that behaviour separately.
+    let tap = ctxname == "CTap";
+    let (r4s, fulls, p7) = if tap { (r4 & r2 & r3, r4, r4) } else { (r4, full, 0) };
     let masks: [(u32, u32, u32); 7] = [
         (full, full, full),
         (full, 0, 0),
         (r1, full, r1),
         (0, full, 0),
         (r2, r3, r3 & r2),
-        (r2, r3, r4),
-        (r4, 0, full),
+        (r2, r3, r4s),
+        (r4, p7, fulls),
     ];
     let mut runs = Vec::new();
     for (ai, &(ms_, mp, mr)) in masks.iter().enumerate() {
@@ -208,6 +281,7 @@ fn one<Ctx: ScriptContext<Key = Pk>>(
             let s = Sat {
                 w,
                 sigs,
+                xsigs,
                 m_sig: ms_,
                 m_rpk: mp,
                 m_rsig: mr,
@@ -262,7 +336,36 @@ fn one<Ctx: ScriptContext<Key = Pk>>(
         runs.join(";\n     ")
     )
     .unwrap();
-    true
+    Ok(())
+}
+
+/// `c:raw_pk_h(H(key 5))` with a satisfier that answers ONLY the raw signature lookup (which carries the key):
+/// what the template says and whether `satisfy` completes it, in Segwitv0 and in Tap.
+fn directed_asymmetry<Ctx: ScriptContext>(w: &World, sigs: &[bitcoin::ecdsa::Signature], xsigs: &[bitcoin::taproot::Signature]) -> String
+where
+    Ctx::Key: RKey,
+    for<'a> Sat<'a>: Satisfier<Ctx::Key>,
+{
+    let src = format!("c:pk_h({})", <Ctx::Key as RKey>::text(w, 5));
+    let d = Miniscript::<Ctx::Key, Ctx>::from_str_insane(&src)
+        .ok()
+        .and_then(|m| Miniscript::<Ctx::Key, Ctx>::decode_consensus(&m.encode()).ok());
+    match d {
+        None => "NA".into(),
+        Some(d) => {
+            let s = Sat { w, sigs, xsigs, m_sig: 0, m_rpk: 0, m_rsig: 1 << 5, pre: false, after_ok: false, older_ok: false };
+            let t = match d.build_template(&s).stack {
+                Witness::Stack(v) => format!("Stack{}", v.len()),
+                Witness::Unavailable => "Unavailable".into(),
+                Witness::Impossible => "Impossible".into(),
+            };
+            let r = match d.satisfy(&s) {
+                Ok(v) => format!("OK{}", v.len()),
+                Err(_) => "ERR".into(),
+            };
+            format!("template={} satisfy={}", t, r)
+        }
+    }
 }
 
 pub fn run(args: &[String]) {
@@ -296,51 +399,91 @@ pub fn run(args: &[String]) {
         coq_bytes(&w.preimages[0]),
         coq_bytes(sha256::Hash::hash(&w.preimages[0]).as_byte_array())
     );
-    let mut chunks: Vec<String> = Vec::new();
-    let mut cur = String::new();
-    let mut n_in = 0usize;
+    // x-only tables for Tap: key bytes, hash160 of them, Schnorr signature (default sighash type: 64 bytes)
+    let kps: Vec<bitcoin::secp256k1::Keypair> =
+        (0..N_KEYS).map(|i| bitcoin::secp256k1::Keypair::from_secret_key(&w.secp, &w.sks[i])).collect();
+    let xsigs: Vec<bitcoin::taproot::Signature> = (0..N_KEYS)
+        .map(|i| bitcoin::taproot::Signature {
+            signature: w.secp.sign_schnorr_no_aux_rand(&msg, &kps[i]),
+            sighash_type: bitcoin::sighash::TapSighashType::Default,
+        })
+        .collect();
+    println!("Definition rk_xkeys : list (bytes * bytes * bytes) := [");
+    let rows: Vec<String> = (0..N_KEYS)
+        .map(|i| {
+            let kb = w.pks[i].inner.x_only_public_key().0.serialize();
+            format!("  ({}, {}, {})", coq_bytes(&kb), coq_bytes(hash160::Hash::hash(&kb).as_byte_array()), coq_bytes(&xsigs[i].to_vec()))
+        })
+        .collect();
+    println!("{}].", rows.join(";\n"));
+    let mut xpairs = Vec::new();
+    for i in 0..N_KEYS {
+        for j in 0..N_KEYS {
+            if w.secp.verify_schnorr(&xsigs[j].signature, &msg, &w.pks[i].inner.x_only_public_key().0).is_ok() {
+                xpairs.push(format!("({},{})", i, j));
+            }
+        }
+    }
+    println!("Definition rk_xvalid : list (N * N) := [{}].", xpairs.join(";"));
+    struct Acc {
+        chunks: Vec<String>,
+        cur: String,
+        n_in: usize,
+    }
+    let mut accs = [Acc { chunks: vec![], cur: String::new(), n_in: 0 }, Acc { chunks: vec![], cur: String::new(), n_in: 0 }];
     let mut total = 0usize;
     let mut stats = (0u64, 0u64, 0u64);
     let mut hist = std::collections::BTreeMap::<String, u64>::new();
     for tpl in TEMPLATES {
         for &tr in TRIPLES {
             let unc = tr.0 >= 6 || tr.1 >= 6 || tr.2 >= 6;
-            for ctx in 0..2 {
+            for ctx in 0..3 {
                 if ctx == 0 && unc {
                     continue; // an uncompressed key cannot spend a v0 witness program
                 }
                 let mut s = String::new();
-                let ok = if ctx == 0 {
-                    one::<Segwitv0>(&w, &sigs, &mut rng, "CSegwit", tpl, tr, &mut s, &mut stats)
-                } else {
-                    one::<Legacy>(&w, &sigs, &mut rng, "CLegacy", tpl, tr, &mut s, &mut stats)
+                let ok = match ctx {
+                    0 => one::<Segwitv0, Segwitv0>(&w, &sigs, &xsigs, &mut rng, "CSegwit", tpl, tr, &mut s, &mut stats),
+                    1 => one::<Legacy, Legacy>(&w, &sigs, &xsigs, &mut rng, "CLegacy", tpl, tr, &mut s, &mut stats),
+                    _ => one::<Tap, Tap>(&w, &sigs, &xsigs, &mut rng, "CTap", tpl, tr, &mut s, &mut stats),
                 };
-                if ok {
-                    if n_in > 0 {
-                        cur.push_str(";\n");
+                if let Err(why) = &ok {
+                    println!("(* SKIP {} {:?} ctx={} : {} *)", tpl, tr, ctx, why.replace("*)", "* )"));
+                }
+                if ok.is_ok() {
+                    let a = &mut accs[if ctx == 2 { 1 } else { 0 }];
+                    if a.n_in > 0 {
+                        a.cur.push_str(";\n");
                     }
-                    cur.push_str(s.trim_end());
-                    n_in += 1;
+                    a.cur.push_str(s.trim_end());
+                    a.n_in += 1;
                     total += 1;
-                    *hist.entry(format!("{}/{}", if ctx == 0 { "segwitv0" } else { "legacy" }, if unc { "uncompressed" } else { "compressed" })).or_insert(0) += 1;
-                    if n_in == 40 {
-                        chunks.push(std::mem::take(&mut cur));
-                        n_in = 0;
+                    let cname = ["segwitv0", "legacy", "tap"][ctx];
+                    *hist.entry(format!("{}/{}", cname, if ctx == 2 { "x-only" } else if unc { "uncompressed" } else { "compressed" })).or_insert(0) += 1;
+                    if a.n_in == 40 {
+                        a.chunks.push(std::mem::take(&mut a.cur));
+                        a.n_in = 0;
                     }
-                } else {
-                    println!("(* SKIP {} {:?} ctx={} *)", tpl, tr, ctx);
                 }
             }
         }
     }
-    if n_in > 0 {
-        chunks.push(cur);
+    for (ai, a) in accs.iter_mut().enumerate() {
+        if a.n_in > 0 {
+            a.chunks.push(std::mem::take(&mut a.cur));
+        }
+        let pfx = if ai == 0 { "rk_cases" } else { "rk_tap_cases" };
+        for (i, c) in a.chunks.iter().enumerate() {
+            println!("Definition {}_{} : list rcase := [\n{}].", pfx, i, c);
+        }
+        let names: Vec<String> = (0..a.chunks.len()).map(|i| format!("{}_{}", pfx, i)).collect();
+        println!("Definition {} : list (list rcase) := [{}].", pfx, names.join("; "));
     }
-    for (i, c) in chunks.iter().enumerate() {
-        println!("Definition rk_cases_{} : list rcase := [\n{}].", i, c);
-    }
-    let names: Vec<String> = (0..chunks.len()).map(|i| format!("rk_cases_{}", i)).collect();
-    println!("Definition rk_cases : list (list rcase) := [{}].", names.join("; "));
+    println!(
+        "(* OBS raw-sig-lookup-only segwitv0: {} ; tap: {} *)",
+        directed_asymmetry::<Segwitv0>(&w, &sigs, &xsigs),
+        directed_asymmetry::<Tap>(&w, &sigs, &xsigs)
+    );
     println!(
         "(* SUMMARY scripts={} runs={} sat_ok={} sat_err={} panics={} hist={:?} *)",
         total,
